@@ -655,14 +655,19 @@ func (m *Memberlist) Leave(timeout time.Duration) error {
 	}
 
 	if !m.hasLeft() {
-		m.leave.Store(1)
-
+		// Setting the leave flag, reading our incarnation and recording our
+		// own departure must be one atomic step with respect to incoming
+		// accusations (which are all processed under nodeLock). Otherwise a
+		// suspect message handled in between refutes and bumps the
+		// incarnation past the one the leave message carries (the leave is
+		// then dropped and the node stays alive with the flag set), and a
+		// dead message handled in between makes us record and announce
+		// ourselves as failed instead of as having left.
 		m.nodeLock.Lock()
+		m.leave.Store(1)
 		state, ok := m.nodeMap[m.config.Name]
-		incarnation := state.Incarnation
-		name := state.Name
-		m.nodeLock.Unlock()
 		if !ok {
+			m.nodeLock.Unlock()
 			m.logger.Printf("[WARN] memberlist: Leave but we're not in the node map.")
 			return nil
 		}
@@ -672,11 +677,12 @@ func (m *Memberlist) Leave(timeout time.Duration) error {
 		// intentionally. When Node equals From, other nodes know for
 		// sure this node is gone.
 		d := dead{
-			Incarnation: incarnation,
-			Node:        name,
-			From:        name,
+			Incarnation: state.Incarnation,
+			Node:        state.Name,
+			From:        state.Name,
 		}
-		m.deadNode(&d)
+		m.deadNodeLocked(&d)
+		m.nodeLock.Unlock()
 
 		// Block until the broadcast goes out
 		if m.anyAlive() {
